@@ -20,7 +20,8 @@ LEVEL = 'fault_enumeration'
 RULE = ('(a) Hypothesis lifecycle histories over ONE directory: open(reuse, clear) [all four combinations, optional '
         'foreign file in the directory], access by index / negative / numpy index / key / slice view / iteration / '
         'prefetch, copy(), release(handle) = del + gc.collect(), reopen, the wall clock jumping ahead by days or months, '
-        'a store whose library-level size limit is reached after a few examples, an open refused because the dataset is not '
+        'a store whose library-level size limit is reached after a few examples, a relative directory name with the '
+        'process changing its working directory, an open refused because the dataset is not '
         'indexable; a counting upstream makes every '
         'recomputation visible. Model: stored values per position, live handles of the one open wrapper group, '
         'directory state. Oracle: every value is the pipeline value and equals what was stored first; stored '
@@ -70,6 +71,13 @@ def lifecycle(case):
         spelled = '$VERIF_C11_ROOT/' + d.name
     elif case.get('spelled') == 'path':
         spelled = d
+    orig_cwd = os.getcwd()
+    elsewhere = Path(root) / 'elsewhere'
+    elsewhere.mkdir()
+    if case.get('spelled') == 'relative':
+        # a relative directory name; the process changes its working directory later on ('chdir' steps)
+        os.chdir(root)
+        spelled = d.name
     calls = {}
     counter = itertools.count(1)
 
@@ -130,6 +138,8 @@ def lifecycle(case):
 
         for si, step in enumerate(case['steps']):
             kind = step[0]
+            if kind in ('open', 'open_bad') and case.get('spelled') == 'relative':
+                os.chdir(root)  # a relative name means THE directory of this history only when resolved from here
             if kind == 'open':
                 if handles:
                     continue
@@ -181,6 +191,9 @@ def lifecycle(case):
                 gc.collect()
                 if clear:
                     stored.clear()
+            elif kind == 'chdir':
+                os.chdir(str(elsewhere) if os.getcwd() != str(elsewhere) else root)
+                events.add('chdir')
             elif kind == 'clock':
                 # time passes (days): stored examples do not age
                 clock['offset'] += step[1] * 86400.0
@@ -282,6 +295,7 @@ def lifecycle(case):
             raise Violation('directory-removed-despite-clear-false', f'{desc}\nat the end')
         return events
     finally:
+        os.chdir(orig_cwd)
         time.time = real_time
         _dc.DEFAULT_SETTINGS['size_limit'] = saved_limit
         handles.clear()
@@ -306,7 +320,7 @@ def st_lifecycle(draw):
             elif r == 2:
                 steps.append(['open', draw(st.booleans()), draw(st.booleans())])  # ignored while a group is open
             elif r == 3 and draw(st.booleans()):
-                steps.append(['clock', draw(st.sampled_from([1, 40, 100, 400]))])
+                steps.append(['clock', draw(st.sampled_from([1, 40, 100, 400]))] if draw(st.booleans()) else ['chdir'])
             else:
                 steps.append(['acc', draw(st.sampled_from(PATHS)), draw(st.integers(0, 7)), draw(st.integers(0, 3))])
         for _ in range(draw(st.integers(0, 3))):
@@ -325,7 +339,7 @@ def st_lifecycle(draw):
         # a world in which the store is "full" after a few examples (below and above the 32 KiB inline limit)
         case['pad'] = draw(st.sampled_from([9000, 40000]))
         case['size_limit'] = 16384
-    sp = draw(st.sampled_from(['str', 'str', 'path', 'envvar']))
+    sp = draw(st.sampled_from(['str', 'str', 'path', 'envvar', 'relative', 'relative']))
     if sp != 'str':
         case['spelled'] = sp
     return case
